@@ -127,7 +127,7 @@ def run(ctx):
             if "replay_args" in v:
                 cases += ctx.run_json([binp, "c46", "replay"] + [str(a) for a in v["replay_args"]])
     else:
-        n = 60 if ctx.tier == "quick" else 600
+        n = 40 if ctx.tier == "quick" else 400
         cases = ctx.run_json([binp, "c46", str(n)], timeout=1500)
     trunc = [c for c in cases if c.get("truncated")]
     cases = [c for c in cases if not c.get("truncated")]
@@ -143,7 +143,7 @@ def run(ctx):
         if not dump_lists_put_objects(c):
             bad_dump_py.add(i)
 
-    CH = 4 if ctx.tier == "quick" else 12
+    CH = 5 if ctx.tier == "quick" else 12
     jobs, offs = [], []
     for off in range(0, len(cases), CH):
         chunk = cases[off:off + CH]
